@@ -25,6 +25,7 @@ dbg <i> <id>  |  dbgreg <i>                 -> <i> PeerHandle{peer_id:PeerId(N)}
 ctx <i> new <id> <method> | ctx <i> detached <method>  -> <i> <method> <id/tag|-> <is_cancelled T|F> <cancelled() pending|ready> | none
 bcastfail <i> <json|beve> <path>            -> <i> err sent -             (encoder error: nothing is sent)
 loop <i> <setup> <cycle> <reader>.. :: <c=ans|ans;..>..  -> <i> ok <n> | <i> INADMISSIBLE   (looped race)
+poison <i>                                  -> <i> done                   (a caller panics inside get_by; state unchanged)
 enum <i> <depth> <fold> <prefix|->          -> one line per sequence `<i> <path> <ret> <digest> [h=<hash>]`
 conc <i> <setup|-> <t1> <t2> .. :: <outcome> ..     -> <i> ok <n> | <i> NONLIN <outcome>
 ```
@@ -100,23 +101,23 @@ def enumKeys : List Key := ["61", "62", "63"]
 inductive EOp where
   | ins (p : Nat) | rem (p : Nat) | alias (p : Nat) (k : Nat)
   | getby (k : Nat) | aliases (p : Nat) | len | bcast | get (p : Nat)
-  | keyfor (p : Nat) | peers
+  | keyfor (p : Nat) | peers | isempty | dbgreg
 
 /-- op codes: a-c ins, d-f rem, g-o alias p k, p-r getby, s-u aliases, v len, w bcast, x-z get,
-A-C (26-28) key_for, D (29) peers -/
+A-C (26-28) key_for, D (29) peers, E (30) is_empty, F (31) Debug of the registry -/
 def eopOfCode (c : Nat) : Option EOp :=
   if c < 3 then some (.ins c) else if c < 6 then some (.rem (c - 3))
   else if c < 15 then some (.alias ((c - 6) / 3) ((c - 6) % 3))
   else if c < 18 then some (.getby (c - 15)) else if c < 21 then some (.aliases (c - 18))
   else if c = 21 then some .len else if c = 22 then some .bcast
   else if c < 26 then some (.get (c - 23)) else if c < 29 then some (.keyfor (c - 26))
-  else if c = 29 then some .peers else none
+  else if c = 29 then some .peers else if c = 30 then some .isempty else if c = 31 then some .dbgreg else none
 
 def codeChar (c : Nat) : Char := if c < 26 then Char.ofNat (97 + c) else Char.ofNat (65 + c - 26)
 
 def codeOfChar (ch : Char) : Nat :=
   if 97 ≤ ch.toNat ∧ ch.toNat < 123 then ch.toNat - 97
-  else if 65 ≤ ch.toNat ∧ ch.toNat < 69 then ch.toNat - 65 + 26 else 99
+  else if 65 ≤ ch.toNat ∧ ch.toNat < 71 then ch.toNat - 65 + 26 else 99
 
 def eopsOfString (p : String) : Option (List EOp) :=
   if p = "-" then some [] else p.toList.mapM (fun ch => eopOfCode (codeOfChar ch))
@@ -135,6 +136,8 @@ def eApply (s : State) (tag : Nat) : EOp → Option (State × String)
   | .bcast => some (s, "{" ++ ",".intercalate ((sortBy (· < ·) ((snapshot s).map (·.id))).map toString) ++ "}")
   | .get p => some (s, showHandle (get s p))
   | .keyfor p => some (s, (keyFor s p).getD "-")
+  | .isempty => some (s, if isEmpty s then "T" else "F")
+  | .dbgreg => some (s, "PeerRegistry{len:" ++ toString (len s) ++ "}")
   | .peers => some (s, "[" ++ ",".intercalate ((sortBy (fun (a b : Handle) => a.id < b.id) (snapshot s)).map fun h => showHandle (some h)) ++ "]")
 
 def fnvStep (h : UInt64) (s : String) : UInt64 :=
@@ -299,6 +302,9 @@ def stepCore (st : St) (ws : List String) : St × String :=
       -- re-entrant sinks: every handle of the snapshot was sent to, so every such sink fired
       ((snapshot st.s).foldl fire st, out)
     | _, _ => (st, i ++ " bad-op")
+  | ["poison", i] =>
+    -- a lookup that panics while the registry lock is held: `lock()` recovers from the poisoning, nothing changes
+    (st, i ++ " done")
   | ["peers", i] =>
     let hs := sortBy (fun (a b : Handle) => a.id < b.id) (snapshot st.s)
     (st, i ++ " [" ++ ",".intercalate (hs.map fun h => showHandle (some h)) ++ "]")
@@ -367,9 +373,9 @@ def stepCore (st : St) (ws : List String) : St × String :=
   | "enum" :: i :: depth :: fold :: prefix_ :: alpha =>
     -- optional alphabet of coded ops (default a..o)
     let codes : List Nat := match alpha with
-      | [a] => a.toList.map (fun ch => ch.toNat - 97)
+      | [a] => a.toList.map codeOfChar
       | _ => mutCodes
-    if alpha.length > 1 ∨ codes.any (fun c => c ≥ 26) then (st, i ++ " bad-op") else
+    if alpha.length > 1 ∨ codes.any (fun c => c ≥ 32) then (st, i ++ " bad-op") else
     match depth.toNat?, fold.toNat?, eopsOfString prefix_ with
     | some depth, some fold, some pre =>
       match runCoded pre {} 0 with
